@@ -2,6 +2,7 @@ package props
 
 import (
 	"context"
+	"fmt"
 	"strings"
 
 	"github.com/regclient/regclient/internal/verif/core"
@@ -20,7 +21,22 @@ func runC14(e *core.Env) {
 	c := genCopyCase(e, copyGenOpts{defaultOptsOnly: true})
 	rc := c.w.Client()
 	s, t := c.refs()
-	e.SetCase(c.key(), true, c.describe())
+	// optional history before the measured copy, through the same client: a copy from a repository
+	// for which the registry declines mounts (per-repository permissions)
+	warm := c.pairing != "two-registries" && e.Choose("gen", 3, "warmup") == 2
+	if warm {
+		c.src.K.MountDeclineFrom = "restricted/"
+		wg := gen.New(e.Tape)
+		wg.MaxBlob = 40
+		wgr := wg.Graph(gen.Opts{NoReferrers: true, NoDigestTags: true})
+		wgr.Install(c.src, "restricted/base", "v1")
+		werr := rc.ImageCopy(context.Background(), mustRef(c.src.Name+"/restricted/base:v1"), mustRef(c.src.Name+"/warm/base:v1"))
+		drainTasks(e, 20)
+		simrt.Event("warm-up copy returned %v", werr)
+		e.Probe("warm-up-with-declined-mounts")
+	}
+	logStart := len(c.w.Net.Log)
+	e.SetCase(c.key()+fmt.Sprint(warm), true, c.describe())
 	simrt.Event("ImageCopy %s -> %s pre=%s", s.CommonName(), t.CommonName(), c.preState)
 	jStart := len(c.tgt.Journal)
 	err := rc.ImageCopy(context.Background(), s, t)
@@ -50,7 +66,7 @@ func runC14(e *core.Env) {
 	upBytesTotal := 0
 	blobReqs, manifestPuts, writes := 0, 0, 0
 	sessionDigest := map[string]string{}
-	for _, x := range c.w.Net.Log {
+	for _, x := range c.w.Net.Log[logStart:] {
 		if strings.Contains(x.Path, "/blobs/") {
 			blobReqs++
 		}
